@@ -254,6 +254,51 @@ fn gen_case(r: &mut Rng) -> Case {
     Case { ty, arms }
 }
 
+/// Systematic block: for each small type every 2-arm (and 3-arm) matrix in which one arm is an or-pattern of
+/// 2-3 alternatives over the atoms of the type, in EVERY order, next to every choice of the other arm(s) — so
+/// each alternative is independently covered / not covered by what precedes it; plus the same with the
+/// or-pattern nested in a tuple component.
+fn systematic() -> Vec<Case> {
+    fn seqs(atoms: &[Pat], len: usize) -> Vec<Vec<Pat>> {
+        let mut out: Vec<Vec<Pat>> = vec![vec![]];
+        for _ in 0..len { out = out.into_iter().flat_map(|p| atoms.iter().map(move |a| { let mut q = p.clone(); q.push(a.clone()); q })).collect(); }
+        out
+    }
+    let mut cases = vec![];
+    let unit = || Ty::Tuple(vec![]);
+    let flat: Vec<(Ty, Vec<Pat>, bool)> = vec![
+        (Ty::Bool, vec![Pat::Bool(true), Pat::Bool(false), Pat::Wild], true),
+        (Ty::Enum(vec![unit(), unit()]), vec![Pat::Variant(2, 0, Box::new(Pat::Wild)), Pat::Variant(2, 1, Box::new(Pat::Wild)), Pat::Wild], true),
+        (Ty::U8, vec![Pat::U8(3), Pat::U8(7), Pat::Wild], false),
+    ];
+    for (ty, atoms, three) in &flat {
+        for len in [2usize, 3] {
+            for alts in seqs(atoms, len) {
+                let or = Pat::Or(alts);
+                for a in atoms {
+                    cases.push(Case { ty: ty.clone(), arms: vec![a.clone(), or.clone()] });
+                    cases.push(Case { ty: ty.clone(), arms: vec![or.clone(), a.clone()] });
+                    if *three { for b in atoms {
+                        cases.push(Case { ty: ty.clone(), arms: vec![a.clone(), b.clone(), or.clone()] });
+                        cases.push(Case { ty: ty.clone(), arms: vec![a.clone(), or.clone(), b.clone()] });
+                    } }
+                }
+            }
+        }
+    }
+    let batoms = vec![Pat::Bool(true), Pat::Bool(false), Pat::Wild];
+    let tt = Ty::Tuple(vec![Ty::Bool, Ty::Bool]);
+    for alts in seqs(&batoms, 2) {
+        for a in &batoms { for c in [Pat::Bool(true), Pat::Wild] { for c2 in [Pat::Bool(true), Pat::Wild] {
+            let plain = Pat::Tuple(vec![a.clone(), c.clone()]);
+            let nested = Pat::Tuple(vec![Pat::Or(alts.clone()), c2.clone()]);
+            cases.push(Case { ty: tt.clone(), arms: vec![plain.clone(), nested.clone()] });
+            cases.push(Case { ty: tt.clone(), arms: vec![nested, plain] });
+        } } }
+    }
+    cases
+}
+
 /// Values on which the compiled match is run: all of them if ≤ cap, otherwise u8 leaves are restricted to
 /// the literals mentioned, their neighbours, 0, 255 and two arbitrary values.
 fn values(t: &Ty, interesting: &BTreeSet<u64>, all_u8: bool) -> Vec<Val> {
@@ -292,6 +337,36 @@ fn run_values(c: &Case, r: &mut Rng) -> Vec<Val> {
     // deterministic thinning
     while vs.len() > RUN_CAP { let k = r.below(vs.len() as u64) as usize; vs.swap_remove(k); }
     vs
+}
+
+// ------------------------------------------------------------------------------------------------ freshness
+
+/// The anchored compiler sources as they were when THIS binary was compiled. `include_str!` also makes cargo
+/// rebuild the binary whenever one of them changes; at start-up they are compared with the files on disk, so a
+/// binary that was not rebuilt after a change of the analysis can never produce a (stale) green run.
+macro_rules! anchors { ($($rel:literal),* $(,)?) => { &[ $( ($rel, include_str!(concat!("/repo/", $rel))) ),* ] } }
+const ANCHORS: &[(&str, &str)] = anchors![
+    "sway-core/src/semantic_analysis/ast_node/expression/match_expression/analysis/usefulness.rs",
+    "sway-core/src/semantic_analysis/ast_node/expression/match_expression/analysis/range.rs",
+    "sway-core/src/semantic_analysis/ast_node/expression/match_expression/analysis/constructor_factory.rs",
+    "sway-core/src/semantic_analysis/ast_node/expression/match_expression/analysis/pattern.rs",
+    "sway-core/src/semantic_analysis/ast_node/expression/match_expression/analysis/patstack.rs",
+    "sway-core/src/semantic_analysis/ast_node/expression/match_expression/analysis/matrix.rs",
+    "sway-core/src/semantic_analysis/ast_node/expression/match_expression/analysis/witness_report.rs",
+    "sway-core/src/semantic_analysis/ast_node/expression/match_expression/analysis/reachable_report.rs",
+    "sway-core/src/semantic_analysis/ast_node/expression/match_expression/typed/matcher.rs",
+    "sway-core/src/semantic_analysis/ast_node/expression/match_expression/typed/typed_match_branch.rs",
+    "sway-core/src/semantic_analysis/ast_node/expression/match_expression/typed/typed_match_expression.rs",
+    "sway-core/src/semantic_analysis/ast_node/expression/typed_expression.rs",
+];
+fn check_fresh() {
+    let repo = std::env::var("VERIF_REPO").unwrap_or_else(|_| "/repo".into());
+    for (rel, built) in ANCHORS {
+        match std::fs::read_to_string(Path::new(&repo).join(rel)) {
+            Ok(now) if now == *built => {}
+            _ => { eprintln!("sv_c14: STALE BINARY — {rel} differs from the source this binary was compiled from; rebuild the harness"); std::process::exit(5); }
+        }
+    }
 }
 
 // ------------------------------------------------------------------------------------------------ compiler
@@ -577,6 +652,7 @@ fn run_group(cases: &[Case], g: &[(usize, Vec<Val>)], root: &Path, ministd: &str
 
 fn main() {
     let a = args();
+    check_fresh();
     quiet_panics();
     let mut r = Rng::new(seed_from_env());
     let root = scratch_dir("c14");
@@ -608,7 +684,14 @@ fn main() {
             match (ty, arms) { (Some(ty), Some(arms)) => cases.push(Case { ty, arms }), _ => { eprintln!("sv_c14: bad corpus line {l}"); std::process::exit(3); } }
         }
     }
-    while cases.len() < a.n { cases.push(gen_case(&mut r)); }
+    if a.extra.iter().any(|x| x == "--systematic") {
+        let all = systematic();
+        let room = a.n.saturating_sub(cases.len()).max(1);
+        let stride = (all.len() + room - 1) / room;
+        let off = (seed_from_env() as usize) % stride.max(1);
+        cases.extend(all.into_iter().skip(off).step_by(stride.max(1)));
+    }
+    while cases.len() < a.n && !a.extra.iter().any(|x| x == "--systematic") { cases.push(gen_case(&mut r)); }
     let batch: usize = std::env::var("C14_BATCH").ok().and_then(|s| s.parse().ok()).unwrap_or(150);
     let mut out = std::io::BufWriter::new(std::fs::File::create(&a.out).unwrap());
     let mut stats = (0usize, 0usize, 0usize);
